@@ -407,6 +407,8 @@ def toint(x):
 def toreal(x):
     if isinstance(x, SReal):
         return x.e
+    if isinstance(x, SFloat):
+        return x.v
     if isinstance(x, SInt):
         return z3.ToReal(x.e)
     if isinstance(x, bool):
